@@ -108,7 +108,16 @@ def ref_unit_cell(symops, sites):
 SPECIAL_VALUES = [F(0), F(1, 2), F(1, 4), F(3, 4), F(1, 3), F(2, 3), F(1, 8), F(3, 8), F(5, 8), F(7, 8), F(1, 6), F(5, 6)]
 
 
+TWELFTHS_BIAS = [0.25]
+
+
 def random_general(rng):
+    if rng.random() < TWELFTHS_BIAS[0]:
+        # coordinates on the twelfths grid in two directions: images whose coordinate is mathematically 0 come out of the float
+        # arithmetic as ±1e-17, which the wrapping must still map into [0,1)
+        g = lambda: F(rng.randint(0, 11), 12)
+        r = F(rng.randint(1, 96), 97)
+        return tuple(rng.sample([g(), g(), r], 3))
     d = rng.choice([7, 11, 13, 17, 19, 23, 29, 31, 37, 41, 43, 53, 59, 61, 67, 71, 73, 79, 83, 89, 97, 64, 128])
     return tuple(F(rng.randint(1, d - 1), d) for _ in range(3))
 
@@ -167,11 +176,19 @@ def random_sites(rng, symops, want_special):
             else:
                 pos = random_general(rng)
             sites.append((z, occ, pos))
+        if rng.random() < 0.06:
+            # whole-number coordinates handed over as an INTEGER array (e.g. an atom at the origin written [[0, 0, 0]])
+            sites = [(rng.choice([6, 14, 29, 79]), F(1), (F(rng.randint(0, 1)), F(rng.randint(0, 1)), F(rng.randint(0, 2))))]
+            return sites, 1
         if separation_ok(symops, sites):
             # asymmetric units are not confined to the reference cell (molecules straddle faces): move some sites by whole
             # lattice vectors; images stay within (-7, inf), the range the `+ 7.0` of the wrapping is written for
+            # (only sites on general positions: for a site on a special position a coordinate that is mathematically 0 is computed as
+            # 0 or 1-4e-16 depending on the shift, and the coincidence test of the code is not periodic — outside the stated quantifier)
             if rng.random() < 0.4:
-                sites = [(z, occ, tuple(c + rng.randint(-2, 2) for c in pos)) if rng.random() < 0.7 else (z, occ, pos) for (z, occ, pos) in sites]
+                gen = [sum(1 for op in ops if wrap(apply_exact(op, pos)) == wrap(pos)) == 1 for (_, _, pos) in sites]
+                sites = [(z, occ, tuple(c + rng.randint(-2, 2) for c in pos)) if (g and rng.random() < 0.7) else (z, occ, pos)
+                         for (z, occ, pos), g in zip(sites, gen)]
             return sites, nspecial
     return None, 0
 
@@ -183,7 +200,11 @@ def build_crystal(e, sites, rng):
     if sg is None:
         return None
     uc = cell_for(sg, rng)
-    asym = AsymmetricUnit([Element[z] for z, _, _ in sites], np.array([[float(c) for c in p] for _, _, p in sites]),
+    if all(c.denominator == 1 for _, _, p in sites for c in p):
+        pos = np.array([[int(c) for c in p] for _, _, p in sites], dtype=int)       # integer dtype, as a user would write it
+    else:
+        pos = np.array([[float(c) for c in p] for _, _, p in sites])
+    asym = AsymmetricUnit([Element[z] for z, _, _ in sites], pos,
                           labels=[f"{Element[z].symbol}{i + 1}" for i, (z, _, _) in enumerate(sites)],
                           occupation=np.array([float(o) for _, o, _ in sites]))
     return Crystal(uc, sg, asym)
@@ -197,6 +218,12 @@ def impl_rows(c):
                      "occ": float(u["occupation"][k]), "frac": [float(x) for x in u["frac_pos"][k]],
                      "cart": [float(x) for x in u["cart_pos"][k]], "label": str(u["label"][k])})
     return rows
+
+
+def torus_far(x, y, tol):
+    """positions are compared modulo the lattice: 0.9999999999999996 and 0.0 are the same coordinate"""
+    d = abs(float(x) - float(y)) % 1.0
+    return min(d, 1.0 - d) > tol
 
 
 def rows_match(model_rows, impl, tol=1e-9):
@@ -213,7 +240,7 @@ def rows_match(model_rows, impl, tol=1e-9):
             return f"row {k}: element {rb['elem']} expected {ra['elem']}"
         if abs(float(ra["occ"]) - rb["occ"]) > 1e-9:
             return f"row {k}: occupancy {rb['occ']} expected {float(ra['occ'])}"
-        if any(abs(float(x) - y) > tol for x, y in zip(ra["frac"], rb["frac"])):
+        if any(torus_far(x, y, tol) for x, y in zip(ra["frac"], rb["frac"])):
             return f"row {k}: position {rb['frac']} expected {[float(x) for x in ra['frac']]}"
     return None
 
@@ -237,6 +264,16 @@ def plan(ctx, per_setting):
             sites, nsp = random_sites(ctx.rng, e.symops, want_special=(ctx.rng.random() < 0.7))
             if sites is not None:
                 out.append((i, e, sites, nsp))
+        if 143 <= e.number <= 194:
+            # hexagonal / rhombohedral axes: thirds and sixths in operations and coordinates cancel to ±1e-17 instead of 0
+            TWELFTHS_BIAS[0] = 0.9
+            try:
+                for k in range(2):
+                    sites, nsp = random_sites(ctx.rng, e.symops, want_special=False)
+                    if sites is not None:
+                        out.append((i, e, sites, nsp))
+            finally:
+                TWELFTHS_BIAS[0] = 0.25
     return out
 
 
@@ -287,7 +324,7 @@ def judge(e, sites, seed):
         if r["label"] != c.asymmetric_unit.labels[r["asym"]]:
             return f"{tag}: label {r['label']} is not the parent site's label"
         img = wrap(apply_exact(dec(r["symop"]), pos))
-        if r["symop"] not in e.symops or any(abs(float(a) - b) > 1e-9 for a, b in zip(img, r["frac"])):
+        if r["symop"] not in e.symops or any(torus_far(a, b, 1e-9) for a, b in zip(img, r["frac"])):
             return f"{tag}: recorded generating operation {r['symop']} does not map site {r['asym']} to {r['frac']}"
     m = rows_match(ref, rows)
     if m:
